@@ -323,15 +323,43 @@ def rw_after_throw(body, throwers, retexpr, cnt):
                 cnt.hit('R8_after_call')
                 pos = j + 1 + len(ins)
             else:
-                # inside an expression / condition: handled by forms  if (!call()) return X;  only
-                ctx = body[a:j + 20]
-                if re.search(r'\bif\s*\(\s*!?\s*$', body[a:m.start()]) or re.search(r'\breturn\s+!?\s*$', body[a:m.start()]):
-                    # `if (!f()) return ...;`  or `return f();` : the callee's contract must make the
-                    # result on throw equal to the default; recorded
-                    cnt.hit('R8_call_in_condition')
-                    pos = pc + 1
-                else:
-                    raise ExtractionError('may-throw call %s in unsupported context: %r' % (name, ctx[:120]))
+                # inside an expression / condition: wrap the call itself in a GCC statement expression so that a
+                # throw leaves the function before anything else of the enclosing expression is evaluated
+                call = body[m.start():pc + 1]
+                new = ('({ __typeof__(%s) verif_t = %s; if (verif_thrown) return %s; verif_t; })' % (call, call, retexpr))
+                body = body[:m.start()] + new + body[pc + 1:]
+                cnt.hit('R8_call_in_expression')
+                pos = m.start() + len(new)
+    return body
+
+
+def rw_methods(body, methods, cnt):
+    """R9: recv.m(args) -> C_m(&(recv), args);  recv->m(args) -> C_m(recv, args)"""
+    for a, b in methods:
+        if '->' in a:
+            recv, name = a.split('->')
+            pat = re.compile(r'(?<![\w\.>])%s\s*->\s*%s\s*\(' % (re.escape(recv.strip()), re.escape(name.strip())))
+            first = recv.strip()
+        else:
+            recv, name = a.rsplit('.', 1)
+            pat = re.compile(r'(?<![\w\.>])%s\s*\.\s*%s\s*\(' % (re.escape(recv.strip()), re.escape(name.strip())))
+            first = '&(' + recv.strip() + ')'
+        pos = 0
+        n = 0
+        while True:
+            m = pat.search(body, pos)
+            if not m:
+                break
+            k = m.end() - 1
+            pc = match_close(body, k)
+            inner = body[k + 1:pc]
+            new = b + '(' + first + (', ' + inner if inner.strip() else '') + ')'
+            body = body[:m.start()] + new + body[pc + 1:]
+            pos = m.start() + len(b) + 1
+            n += 1
+        if n == 0:
+            raise ExtractionError('method rule %s=>%s did not fire' % (a, b))
+        cnt.hit('R9_method', n)
     return body
 
 
@@ -666,7 +694,7 @@ def parse_extract_block(text):
         raise ExtractionError('extract: need FILE QUALNAME')
     spec = {'file': head[0], 'qual': head[1], 'as': head[1].replace('::', '_'), 'pick': 1, 'params': None,
             'inclass': False, 'static': False, 'ret': None, 'calls': [], 'throws': [], 'subs': [],
-            'contract': [], 'loops': {}, 'decl_only': False, 'unannotated_ok': False, 'pre': []}
+            'contract': [], 'loops': {}, 'selfparam': None, 'methods': [], 'decl_only': False, 'unannotated_ok': False, 'pre': []}
     mode = None
     cur = None
     for ln in lines[1:]:
@@ -701,6 +729,11 @@ def parse_extract_block(text):
             spec['inclass'] = True
         elif s == 'static':
             spec['static'] = True
+        elif s.startswith('selfparam '):
+            spec['selfparam'] = s[10:].strip()
+        elif s.startswith('method '):
+            a, b = s[7:].split('=>')
+            spec['methods'].append((a.strip(), b.strip()))
         elif s == 'declonly':
             spec['decl_only'] = True
         elif s == 'unannotated-loops-ok':
@@ -742,10 +775,13 @@ def do_extract(spec, cnt, exc_types, info):
     dummy = Counter()
     ret = rw_quals(ret, dummy)
     cparams, refs = convert_params(rw_quals(params, dummy), cnt)
+    if spec['selfparam']:
+        sp = 'struct %s* self' % spec['selfparam']
+        cparams = sp if cparams == 'void' else sp + ', ' + cparams
     retexpr = spec['ret']
     if retexpr is None:
         retexpr = '' if ret.strip() == 'void' else '0'
-    info.setdefault('_sigs', {})[cname] = ref_positions(rw_quals(params, dummy))
+    info.setdefault('_sigs', {})[cname] = [i + (1 if spec['selfparam'] else 0) for i in ref_positions(rw_quals(params, dummy))]
     if spec['decl_only']:
         # contract-only callee: the signature comes from the real definition, the body is not used
         out = ['/* ---- contract-only (body not verified in this unit): %s  (%s:%d) ---- */' % (spec['qual'], relfile, base_line)]
@@ -770,6 +806,7 @@ def do_extract(spec, cnt, exc_types, info):
         cnt.hit('sub_rule', n)
     body = rw_quals(body, cnt)
     body = rw_calls(body, spec['calls'], cnt)
+    body = rw_methods(body, spec['methods'], cnt)
     body = rw_ref_args(body, info.get('_sigs', {}), cnt)
     body = rw_after_throw(body, spec['throws'], retexpr, cnt)
     body, nloops, annotated = splice_loops(body, spec['loops'], base_line, relfile, cname, cnt)
@@ -817,6 +854,15 @@ def parse_kv(args):
 def process(template_path):
     with open(template_path) as f:
         text = f.read()
+    incdir = os.path.join(os.path.dirname(os.path.dirname(os.path.abspath(template_path))), 'contracts')
+    for _ in range(8):
+        mi = re.search(r'^//@ include (\S+)[ \t]*$', text, re.M)
+        if not mi:
+            break
+        ip = os.path.join(incdir, mi.group(1))
+        if not os.path.exists(ip):
+            raise ExtractionError('include file missing: %s' % ip)
+        text = text[:mi.start()] + open(ip).read() + text[mi.end():]
     stem = os.path.basename(template_path)
     if stem.endswith('.u.c'):
         stem = stem[:-4]
